@@ -60,6 +60,16 @@ func panicVals() []panicVal {
 		{name: "wrapped ErrAbortHandler", mk: func() any { return wrappedAbort }, abort: true},
 		{name: "OpError EPIPE", mk: func() any { return opErr(syscall.EPIPE) }, broken: true},
 		{name: "OpError ECONNRESET", mk: func() any { return opErr(syscall.ECONNRESET) }, broken: true},
+		// the panic value itself is the *net.OpError; the system-call error sits deeper in its chain
+		{name: "OpError EPIPE (syscall error wrapped)", mk: func() any {
+			return &net.OpError{Op: "write", Net: "tcp", Err: fmt.Errorf("flush: %w", &os.SyscallError{Syscall: "write", Err: syscall.EPIPE})}
+		}, broken: true},
+		{name: "OpError ECONNRESET (nested OpError)", mk: func() any {
+			return &net.OpError{Op: "write", Net: "tcp", Err: opErr(syscall.ECONNRESET)}
+		}, broken: true},
+		{name: "OpError ETIMEDOUT (syscall error wrapped)", mk: func() any {
+			return &net.OpError{Op: "read", Net: "tcp", Err: fmt.Errorf("read: %w", &os.SyscallError{Syscall: "read", Err: syscall.ETIMEDOUT})}
+		}},
 		{name: "OpError ETIMEDOUT", mk: func() any { return opErr(syscall.ETIMEDOUT) }},
 		{name: "wrapped OpError EPIPE", mk: func() any { return fmt.Errorf("w: %w", opErr(syscall.EPIPE)) }, gray: true},
 		{name: "runtime error", mk: func() any {
